@@ -890,30 +890,100 @@ Proof.
   destruct l; simpl; [exact I|lia].
 Qed.
 
-Lemma enabled_prefix_is_prefix : forall wakes, exists rest, map fst wakes = enabled_prefix wakes ++ rest.
+Lemma enabled_prefix_is_prefix : forall wakes, exists rest, map wake_now wakes = enabled_prefix wakes ++ rest.
 Proof.
-  induction wakes as [|[now [|]] wakes [rest IH]]; simpl.
+  induction wakes as [|[[now [|]] dis] wakes [rest IH]]; simpl.
   - now exists [].
-  - exists rest. now rewrite IH.
-  - now exists (now :: map fst wakes).
+  - exists rest. unfold wake_now at 1. simpl. now rewrite IH.
+  - now exists (now :: map wake_now wakes).
 Qed.
 
-Lemma run_loop_active : forall st m t0 wakes, active st = Some m ->
-  run_loop st t0 wakes = map (OnIteration m) (map (fun now => now - t0)%Z (enabled_prefix wakes)).
+Lemma live_prefix_is_prefix : forall wakes, exists rest, map wake_now wakes = live_prefix wakes ++ rest.
 Proof.
-  intros st m t0 wakes H. induction wakes as [|[now [|]] wakes IH]; simpl; [reflexivity| |reflexivity].
-  unfold on_iteration. rewrite H. simpl. now rewrite IH.
+  induction wakes as [|[[now [|]] [|]] wakes [rest IH]]; simpl.
+  - now exists [].
+  - now exists (map wake_now wakes).
+  - exists rest. unfold wake_now at 1. simpl. now rewrite IH.
+  - now exists (now :: map wake_now wakes).
+  - now exists (now :: map wake_now wakes).
 Qed.
 
-Lemma run_loop_idle : forall st t0 wakes, active st = None -> run_loop st t0 wakes = [].
+Lemma live_prefix_undisturbed : forall wakes, undisturbed wakes -> live_prefix wakes = enabled_prefix wakes.
 Proof.
-  intros st t0 wakes H. induction wakes as [|[now [|]] wakes IH]; simpl; [reflexivity| |reflexivity].
-  unfold on_iteration. now rewrite H.
+  induction wakes as [|[[now en] dis] wakes IH]; intros H; [reflexivity|].
+  inversion H as [|? ? H1 H2]; subst. unfold wake_disable in H1. simpl in H1. subst dis.
+  simpl. destruct en; [|reflexivity]. now rewrite IH.
 Qed.
 
-(* what one run() period delivers, exactly *)
+Lemma disable_seen_undisturbed : forall wakes, undisturbed wakes -> disable_seen wakes = false.
+Proof.
+  induction wakes as [|[[now en] dis] wakes IH]; intros H; [reflexivity|].
+  inversion H as [|? ? H1 H2]; subst. unfold wake_disable in H1. simpl in H1. subst dis.
+  simpl. destruct en; [|reflexivity]. now apply IH.
+Qed.
+
+(* passes before a disable(): all enabled, none of them disturbed *)
+Definition calm (w : wake) : Prop := wake_enabled w = true /\ wake_disable w = false.
+
+Lemma live_prefix_disabled_at : forall pre now post, Forall calm pre ->
+  live_prefix (pre ++ (now, true, true) :: post) = map wake_now pre ++ [now] /\
+  disable_seen (pre ++ (now, true, true) :: post) = true.
+Proof.
+  induction pre as [|[[n en] dis] pre IH]; intros now post H; [split; reflexivity|].
+  inversion H as [|? ? [H1 H2] H3]; subst. unfold wake_enabled, wake_disable in *. simpl in H1, H2. subst.
+  destruct (IH now post H3) as [E1 E2]. simpl. rewrite E1, E2. split; reflexivity.
+Qed.
+
+(* the loop of run() while a mode is active: one on_iteration per live pass,
+   and the on_disable at the pass during which disable() was called *)
+Lemma run_loop_active : forall m tm ex t0 wakes,
+  run_loop (mkL (Some m) tm ex) t0 wakes =
+  (mkL (if disable_seen wakes then None else Some m) tm ex,
+   map (OnIteration m) (map (fun now => now - t0)%Z (live_prefix wakes)) ++
+   (if disable_seen wakes then [OnDisable m] else [])).
+Proof.
+  intros m tm ex t0 wakes. induction wakes as [|[[now [|]] [|]] wakes IH]; simpl; try reflexivity.
+  - (* disable() during this pass: nothing more is delivered *)
+    assert (Hidle : forall w, run_loop (mkL None tm ex) t0 w = (mkL None tm ex, [])).
+    { induction w as [|[[n [|]] [|]] w IHw]; simpl; try reflexivity; now rewrite IHw. }
+    unfold on_iteration, do_disable. simpl. rewrite Hidle. reflexivity.
+  - unfold on_iteration. simpl. rewrite IH. reflexivity.
+Qed.
+
+Lemma run_loop_idle : forall tm ex t0 wakes,
+  run_loop (mkL None tm ex) t0 wakes = (mkL None tm ex, []).
+Proof.
+  intros tm ex t0 wakes. induction wakes as [|[[n [|]] [|]] w IHw]; simpl; try reflexivity; now rewrite IHw.
+Qed.
+
+(* what one run() period delivers, exactly: on_enable, one on_iteration per
+   live pass of the loop, one on_disable -- whether disable() was called during
+   the loop or only by run() itself after it *)
 Theorem run_period_exact : forall r st s t0 wakes,
   active st = None ->
+  do_run r st s t0 wakes =
+  (mkL None (timer st) (robot_exit st),
+   match select r s with
+   | None => []
+   | Some m => OnEnable m ::
+               map (OnIteration m)
+                   (if robot_exit st then [] else map (fun now => now - t0)%Z (live_prefix wakes)) ++
+               [OnDisable m]
+   end).
+Proof.
+  intros r st s t0 wakes Ha. unfold do_run, on_autonomous_enable. cbn [robot_exit timer].
+  destruct (select r s) as [m|] eqn:Es.
+  - destruct (robot_exit st) eqn:Ex; [reflexivity|].
+    rewrite run_loop_active. destruct (disable_seen wakes); unfold do_disable; simpl.
+    + rewrite app_nil_r. reflexivity.
+    + rewrite app_nil_r. reflexivity.
+  - destruct (robot_exit st) eqn:Ex; [reflexivity|].
+    rewrite run_loop_idle. reflexivity.
+Qed.
+
+(* ... when nobody disturbs the loop: one on_iteration per enabled pass *)
+Theorem run_period_undisturbed : forall r st s t0 wakes,
+  active st = None -> undisturbed wakes ->
   do_run r st s t0 wakes =
   (mkL None (timer st) (robot_exit st),
    match select r s with
@@ -924,12 +994,23 @@ Theorem run_period_exact : forall r st s t0 wakes,
                [OnDisable m]
    end).
 Proof.
-  intros r st s t0 wakes Ha. unfold do_run, on_autonomous_enable, do_disable. simpl.
-  destruct (select r s) as [m|] eqn:Es; simpl.
-  - destruct (robot_exit st); simpl; [reflexivity|].
-    rewrite (run_loop_active _ m) by reflexivity. reflexivity.
-  - destruct (robot_exit st); simpl; [reflexivity|].
-    rewrite run_loop_idle by reflexivity. reflexivity.
+  intros r st s t0 wakes Ha Hu. rewrite run_period_exact by assumption.
+  now rewrite live_prefix_undisturbed.
+Qed.
+
+(* ... when disable() is called during a pass of the loop: that pass is the last
+   one that delivers anything, on_disable comes once, and neither the passes that
+   follow ([post], whatever the driver station says in them) nor run()'s own
+   disable() after the loop deliver anything more *)
+Theorem run_period_disabled_mid : forall r st s m t0 pre now post,
+  active st = None -> robot_exit st = false -> select r s = Some m -> Forall calm pre ->
+  do_run r st s t0 (pre ++ (now, true, true) :: post) =
+  (mkL None (timer st) false,
+   OnEnable m ::
+   map (OnIteration m) (map (fun n => n - t0)%Z (map wake_now pre ++ [now])) ++ [OnDisable m]).
+Proof.
+  intros r st s m t0 pre now post Ha Hx Hs Hc. rewrite run_period_exact by assumption.
+  rewrite Hs, Hx. destruct (live_prefix_disabled_at pre now post Hc) as [E _]. now rewrite E.
 Qed.
 
 Lemma run_ops_periodics : forall r m t0 ex nows rest,
@@ -1081,7 +1162,7 @@ Proof.
       assert (Ha : active st = None).
       { destruct ph; simpl in *; try discriminate; tauto. }
       assert (Hwf' : wf ph ops = true) by (destruct ph; simpl in Hwf; congruence).
-      assert (Hn : nondecreasing (t0 :: map fst wakes ++ readings ops)).
+      assert (Hn : nondecreasing (t0 :: map wake_now wakes ++ readings ops)).
       { destruct ph; simpl in *; try discriminate; tauto. }
       specialize (IH ph (mkL None (timer st) (robot_exit st)) lastnow Hwf').
       destruct IH as [ev [fin [Hr Hg]]].
@@ -1097,13 +1178,13 @@ Proof.
         apply conf_closed; auto.
         -- destruct (robot_exit st); [exact I|].
            apply nondecreasing_shift.
-           destruct (enabled_prefix_is_prefix wakes) as [rest Hp].
+           destruct (live_prefix_is_prefix wakes) as [rest Hp].
            apply nondecreasing_tail in Hn. rewrite Hp, <- app_assoc in Hn.
            now apply nondecreasing_app_l in Hn.
         -- destruct (robot_exit st); [constructor|].
-           destruct (enabled_prefix_is_prefix wakes) as [rest Hp].
-           rewrite Hp, <- app_assoc in Hn. change (t0 :: enabled_prefix wakes ++ rest ++ readings ops)
-             with ((t0 :: enabled_prefix wakes) ++ rest ++ readings ops) in Hn.
+           destruct (live_prefix_is_prefix wakes) as [rest Hp].
+           rewrite Hp, <- app_assoc in Hn. change (t0 :: live_prefix wakes ++ rest ++ readings ops)
+             with ((t0 :: live_prefix wakes) ++ rest ++ readings ops) in Hn.
            apply nondecreasing_app_l in Hn. apply nondecreasing_lower in Hn.
            apply Forall_forall. intros t Ht. apply in_map_iff in Ht. destruct Ht as [n [Hn1 Hn2]].
            rewrite Forall_forall in Hn. specialize (Hn n Hn2). simpl in Hn. lia.
